@@ -171,6 +171,7 @@ func (p *Pipe) Ended() (ended, rst, visible bool) {
 
 // TCPConn is one end of a simulated connection.
 type TCPConn struct {
+	wsem chan struct{} // one Write call at a time, whole (net.Conn writes are atomic per call; a channel blocks durably in the bubble)
 	ID            int
 	IsClient      bool
 	Pair          *ConnPair
@@ -441,6 +442,8 @@ func (p *Pipe) deliverLocked(upto int, d time.Duration, end bool) {
 
 // Write implements net.Conn.
 func (c *TCPConn) Write(b []byte) (int, error) {
+	c.wsem <- struct{}{}
+	defer func() { <-c.wsem }()
 	n, err := c.write(b)
 	if err != nil {
 		simrt.Mark()
@@ -839,8 +842,8 @@ func dialTimeout(network, address string, d time.Duration) (Conn, error) {
 	a, b := newPipe(capC2S), newPipe(capS2C)
 	la := tcpAddr{"10.0.0.1:" + strconv.Itoa(port)}
 	ra := tcpAddr{address}
-	cc := &TCPConn{IsClient: true, rd: b, wr: a, local: la, remote: ra, fragMode: frag, delayMode: delay, ClosedAt: -1}
-	sc := &TCPConn{rd: a, wr: b, local: ra, remote: la, fragMode: frag, delayMode: delay, ClosedAt: -1}
+	cc := &TCPConn{wsem: make(chan struct{}, 1), IsClient: true, rd: b, wr: a, local: la, remote: ra, fragMode: frag, delayMode: delay, ClosedAt: -1}
+	sc := &TCPConn{wsem: make(chan struct{}, 1), rd: a, wr: b, local: ra, remote: la, fragMode: frag, delayMode: delay, ClosedAt: -1}
 	pair := &ConnPair{Client: cc, Server: sc, C2S: a, S2C: b, DialTime: simrt.Elapsed(), DialStep: simrt.Step(), Addr: address}
 	cc.Pair, sc.Pair = pair, pair
 	w.mu.Lock()
